@@ -1,10 +1,14 @@
 ------------------------------ MODULE MC_Rpc ------------------------------
 EXTENDS Rpc
-P(a, kind, g, hasT, T) == [a |-> a, kind |-> kind, g |-> g, gn |-> IF kind = "multi" THEN 2 ELSE 1, hasT |-> hasT, T |-> T]
+PN(a, kind, g, gn, hasT, T) == [a |-> a, kind |-> kind, g |-> g, gn |-> gn, hasT |-> hasT, T |-> T]
+P(a, kind, g, hasT, T) == PN(a, kind, g, IF kind = "multi" THEN 2 ELSE 1, hasT, T)
 \* two concurrent plain calls (one with a timeout) to one callee
 PlanA == [p \in Ports |-> IF p = 1 THEN P("c1", "call", 1, FALSE, 0) ELSE P("c1", "call", 2, TRUE, 2)]
 \* a call and a call_and_forward with a timeout
 PlanB == [p \in Ports |-> IF p = 1 THEN P("c1", "call", 1, TRUE, 1) ELSE P("c1", "fwd", 2, TRUE, 2)]
 \* multi_call over two callees plus a plain call
 PlanC == [p \in Ports |-> IF p = 1 THEN P("c1", "multi", 1, TRUE, 2) ELSE IF p = 2 THEN P("c2", "multi", 1, TRUE, 2) ELSE P("c1", "call", 2, FALSE, 0)]
+\* multi_call over three callees: position i of the group is port i (its outcome and value must be its own whatever the
+\* order in which the three sub-tasks resolve)
+PlanD == [p \in Ports |-> PN(IF p = 1 THEN "c1" ELSE IF p = 2 THEN "c2" ELSE "c3", "multi", 1, 3, TRUE, 2)]
 =============================================================================
